@@ -191,7 +191,14 @@ class Scenario(apiworld.ApiWorld):
         """Tasks and timers of the client that are still scheduled (drivers excluded)."""
         drivers = {self.init_task, getattr(self, "sd_task", None)}
         tasks = [t for t in asyncio.all_tasks(self.loop) if t not in drivers and not t.done()]
-        timers = [h for h in self.loop._scheduled if not h._cancelled]
+        timers = []
+        for h in self.loop._scheduled:
+            if h._cancelled:
+                continue
+            owner = getattr(getattr(h._callback, "__self__", None), "_task", None)
+            if owner is not None and owner in drivers:
+                continue           # the deadline of an init()/shutdown() call that is itself still running
+            timers.append(h)
         return tasks, timers
 
     def finish(self):
@@ -205,11 +212,29 @@ class Scenario(apiworld.ApiWorld):
             if v and not bad:
                 bad.append(v)
         # let shutdown() itself finish (the network stays as it is: pending connects stay pending)
-        L.run_until(L.time() + 10.0, on_turn=chk)
+        t_stop = L.time() + 10.0
+        while self.shutdown_state != "returned" and (L.has_ready() or (L.next_deadline() is not None and L.next_deadline() <= t_stop)):
+            if not L.has_ready():
+                L.advance_to(L.next_deadline())
+            L.turn()
+            chk()
         if bad:
             return bad[0]
         if self.shutdown_state != "returned":
             return self._v("shutdown-returns", "shutdown() did not return within 10 s of virtual time")
+        # the moment shutdown() has returned (callbacks already queued may run, the clock does not move):
+        # no timer and no task of the client is left
+        L.settle()
+        chk()
+        if bad:
+            return bad[0]
+        tasks, timers = self.residual()
+        if tasks or timers:
+            what = [t.get_coro().__qualname__ for t in tasks] + [getattr(h._callback, "__qualname__", repr(h._callback)) + f" due in {round(h._when - L.time(), 3)} s" for h in timers]
+            return self._v("nothing-left-scheduled", f"when shutdown() has returned the client still has scheduled: {what[:4]}")
+        L.run_until(t_stop, on_turn=chk)
+        if bad:
+            return bad[0]
         if not self.init_task.done():
             return self._v("init-returns", "init() still pending 10 s after shutdown()")
         # now an accepting network, for a long idle time
